@@ -1237,56 +1237,30 @@ struct ical_parser_s {
 	size_t bsz;
 	size_t bix;
 
+	/* line assembly state, the stash holds the unfolded and unescaped
+	 * line so far, independent of how the input was chopped up */
+	/* seen the newline, the line is over unless a fold follows */
+	unsigned int eolp:1U;
+	/* seen a backslash */
+	unsigned int escp:1U;
+	/* line's too long for the stash, to be ignored */
+	unsigned int ovfp:1U;
 	size_t six;
 	char stash[1024U];
 };
 
 #define ICAL_EOP	((struct ical_vevent_s*)0x1U)
 
-static size_t
-esccpy(char *restrict tgt, size_t tz, const char *src, size_t sz)
+static inline void
+stash_putc(struct ical_parser_s p[static 1U], char c)
 {
-	size_t ti = 0U;
-
-	for (size_t si = 0U; si < sz; si++) {
-		switch ((tgt[ti] = src[si])) {
-		case '\r':
-			break;
-		case '\n':
-			/* overread along with the next space */
-			si++;
-			break;
-		case '\\':
-			/* ah, one of them escape sequences */
-			switch (src[si]) {
-			case 'n':
-			case 'N':
-				tgt[ti++] = '\n';
-				si++;
-				break;
-			case '"':
-			case ';':
-			case ',':
-			case '\\':
-			default:
-				tgt[ti++] = src[si++];
-				break;
-			}
-			break;
-		case '"':
-			/* grrr, these need escaping too innit? */
-		default:
-			ti++;
-			break;
-		}
-		/* not sure what to do with long lines */
-		if (UNLIKELY(ti >= tz)) {
-			/* ignore them */
-			return 0U;
-		}
+	if (UNLIKELY(p->six + 1U >= sizeof(p->stash))) {
+		/* not sure what to do with long lines, ignore them */
+		p->ovfp = 1U;
+		return;
 	}
-	tgt[ti] = '\0';
-	return ti;
+	p->stash[p->six++] = c;
+	return;
 }
 
 static int
@@ -1524,79 +1498,75 @@ out:
 }
 
 static struct ical_vevent_s*
-_ical_pull(struct ical_parser_s p[static 1U])
+_ical_line(struct ical_parser_s p[static 1U])
 {
-/* pull-version of read_ical */
+/* the line in the stash is complete, process it */
 	struct ical_vevent_s *res = NULL;
-	const char *eol;
 
-#define BP	(p->buf + p->bix)
-#define BZ	(p->bsz - p->bix)
-#define BI	(p->bix)
-	/* before delving into the current buffer check the stash,
-	 * we might have put a multiline there and only now it
-	 * becomes apparent that it's indeed a valid line when
-	 * examinging the new bytes in the parser buffer */
-	if (p->six && p->stash[p->six] == '\001') {
-		/* go back to 0 termination */
+	if (LIKELY(!p->ovfp && p->six)) {
 		p->stash[p->six] = '\0';
-		/* now check if the stuff in the buffer happens
-		 * to start with a single allowed whitespace in
-		 * which case we enter the normal chop_more
-		 * procedure */
-		if (LIKELY(*BP != ' ' && *BP != '\t')) {
-			goto proc;
-		}
-		/* just get on with it */
+		res = _ical_proc(p);
 	}
-chop_more:
-	/* chop _p->buf into lines (possibly multilines) */
-	for (const char *tmp = BP, *const ep = BP + BZ;
-	     (eol = memchr(tmp, '\n', ep - tmp)) != NULL &&
-		     ++eol < ep && (*eol == ' ' || *eol == '\t'); tmp = eol);
-	if (UNLIKELY((eol == NULL || eol >= BP + BZ) &&
-		     BZ >= sizeof(p->stash) - p->six)) {
-		/* we must have stopped mid-stream at the end of the buffer
-		 * however, our stash space is too small to hold the contents
-		 * we'll just fuck off and hope nobody will notice */
-		p->six = 0U;
-	} else if (UNLIKELY(eol == NULL || eol >= BP + BZ)) {
-		/* copy what we've got to the stash for small buffers */
-		char *restrict sp = p->stash + p->six;
-		size_t sz = sizeof(p->stash) - p->six;
-
-		p->six += esccpy(sp, sz, BP, BZ);
-		if (eol != NULL) {
-			/* means at least we've seen a \n up there
-			 * leave a mark in the stash buffer so the
-			 * pre-examination in the next iteration can
-			 * rule whether this was a multi-line or in
-			 * fact a complete line */
-			p->stash[p->six] = '\001';
-		}
-	} else {
-		const char *bp = BP;
-		const size_t llen = eol - bp;
-		char *restrict sp = p->stash + p->six;
-		size_t slen = sizeof(p->stash) - p->six;
-
-		/* ... pretend we've consumed it all */
-		BI += llen;
-
-		/* copy to stash and unescape */
-		slen = esccpy(sp, slen, bp, llen);
-		/* store new stash pointer */
-		p->six += slen;
-
-	proc:
-		if (p->six && (res = _ical_proc(p)) == NULL) {
-			goto chop_more;
-		}
-	}
-#undef BP
-#undef BZ
-#undef BI
+	p->six = 0U;
+	p->eolp = p->escp = p->ovfp = 0U;
 	return res;
+}
+
+static struct ical_vevent_s*
+_ical_pull(struct ical_parser_s p[static 1U], bool lastp)
+{
+/* pull-version of read_ical, assemble lines octet by octet so that the
+ * way the input was split into buffers cannot make a difference:
+ * CRs are dropped, a LF ends the line unless the next octet is a space
+ * or tab (folding, RFC 5545 section 3.1), a backslash escapes the next
+ * octet (\n and \N being a newline) */
+	struct ical_vevent_s *res;
+
+	while (p->bix < p->bsz) {
+		const char c = p->buf[p->bix];
+
+		if (p->eolp) {
+			p->eolp = 0U;
+			if (c == ' ' || c == '\t') {
+				/* folded line, it carries on */
+				p->bix++;
+				continue;
+			}
+			/* C starts the next line, we'll see it again */
+			if ((res = _ical_line(p)) != NULL) {
+				return res;
+			}
+			continue;
+		}
+		p->bix++;
+		if (p->escp) {
+			p->escp = 0U;
+			if (LIKELY(c != '\r' && c != '\n')) {
+				stash_putc(p, (c == 'n' || c == 'N') ? '\n' : c);
+				continue;
+			}
+			/* lone backslash at the end of the line */
+			stash_putc(p, '\\');
+		}
+		switch (c) {
+		case '\r':
+			break;
+		case '\n':
+			p->eolp = 1U;
+			break;
+		case '\\':
+			p->escp = 1U;
+			break;
+		default:
+			stash_putc(p, c);
+			break;
+		}
+	}
+	if (lastp && (p->eolp || p->six)) {
+		/* nothing's going to follow, so that was a line */
+		return _ical_line(p);
+	}
+	return NULL;
 }
 
 static void
@@ -2826,8 +2796,8 @@ echs_evical_push(ical_parser_t p[static 1U], const char *buf, size_t bsz)
 	return 0;
 }
 
-echs_instruc_t
-echs_evical_pull(ical_parser_t p[static 1U])
+static echs_instruc_t
+_evical_pull(ical_parser_t p[static 1U], bool lastp)
 {
 	struct ical_vevent_s *ve;
 	echs_instruc_t i = {INSVERB_UNK};
@@ -2836,15 +2806,24 @@ echs_evical_pull(ical_parser_t p[static 1U])
 	 * into evical vevents and evrruls */
 	if (UNLIKELY(*p == NULL)) {
 		/* how brave */
-		;
-	} else if ((ve = _ical_pull(*p)) == NULL) {
+		return i;
+	}
+again:
+	if ((ve = _ical_pull(*p, lastp)) == NULL) {
 		/* we need more data, or we've reached the state finished */
 		;
 	} else if (UNLIKELY(ve == ICAL_EOP)) {
-		/* oh, do the big cleaning up */
-		_ical_fini(*p);
-		free(*p);
-		*p = NULL;
+		/* that calendar is over, clean up but hold on to the rest
+		 * of the buffer, there might be another one in there */
+		struct ical_parser_s *_p = *p;
+		const char *buf = _p->buf;
+		const size_t bsz = _p->bsz;
+		const size_t bix = _p->bix;
+
+		_ical_fini(_p);
+		_ical_push(_p, buf, bsz);
+		_p->bix = bix;
+		goto again;
 	} else {
 		struct ical_parser_s *_p = *p;
 
@@ -2885,18 +2864,25 @@ echs_evical_pull(ical_parser_t p[static 1U])
 }
 
 echs_instruc_t
+echs_evical_pull(ical_parser_t p[static 1U])
+{
+	return _evical_pull(p, false);
+}
+
+echs_instruc_t
 echs_evical_last_pull(ical_parser_t p[static 1U])
 {
-	echs_instruc_t res = echs_evical_pull(p);
+	echs_instruc_t res = _evical_pull(p, true);
 
 	if (LIKELY(*p != NULL)) {
 		_ical_fini(*p);
 		free(*p);
+		*p = NULL;
 	}
 	return res;
 }
 
-
+
 /* seria/deseria helpers */
 void
 echs_task_icalify(int whither, echs_task_t t)
